@@ -468,18 +468,18 @@ impl<'a> JoinOutput<'a> {
                 let (is_result_successful, result_vars_matcher): (Vec<_>, Vec<_>) = result_vars
                     .iter()
                     .enumerate()
-                    .filter_map(|(index, result_var)| {
-                        if self.is_branch_active_in_step(step_number, index) {
-                            (
-                                quote! { #result_var.as_ref().map(|_| true).unwrap_or(false) },
-                                quote! {
-                                    #index => #result_var.map(|_| unreachable!())
-                                },
-                            )
-                                .into()
-                        } else {
-                            None
-                        }
+                    .filter(|&(index, _)| self.is_branch_active_in_step(step_number, index))
+                    .enumerate()
+                    .map(|(index, (_, result_var))| {
+                        //
+                        // `__fail_index` is the position among active branches only.
+                        //
+                        (
+                            quote! { #result_var.as_ref().map(|_| true).unwrap_or(false) },
+                            quote! {
+                                #index => #result_var.map(|_| unreachable!())
+                            },
+                        )
                     })
                     .unzip();
                 let value_name = construct_internal_value_name();
